@@ -43,6 +43,8 @@ def main(tier):
                 run.ob(entry, "free_node/%s: payload of x dropped exactly once, x.data = NextFree(None)" % prof,
                        [dr for dr in rec["drops"] if dr[1]] == [[x, True]] and qn.get(x, "missing") is None,
                        key="free_node|payload not dropped exactly once / free-list link of the freed slot not None", detail=d, nontrivial=nt)
+                run.ob(entry, "free_node/%s: the removed generation is derived from the slot's own stamp (not from the id used to address it)" % prof, rec.get("x_stamp_from_slot") is True,
+                       key="free_node|removed stamp is computed from the id argument, not from the slot", detail=d, nontrivial=nt + (bool(rec.get("stale_id")),))
                 run.ob(entry, "free_node/%s: no link field and no other node's stamp written" % prof, not rec["other_writes"], key="free_node|writes beyond stamp/data/free list", detail=d)
                 run.ob(entry, "free_node/%s: len unchanged" % prof, rec["len"][0] == rec["len"][1], key="free_node|changes the number of slots", detail=d)
                 exhausted = (lo == hi == I16_MIN)
